@@ -50,7 +50,7 @@ def endpoints(draw, idx=None, sports=(443,), v6=None):
 def tcp_delivery(draw, modes=("rec", "rec", "flight", "flight", "cuts", "cuts", "cuts", "cuts", "cuts", "bytes"), wrap=True, dups=False, moves=False, small=False):
     mode = draw(st.sampled_from(list(modes)))
     t = {"mode": mode, "mss": draw(st.sampled_from([1400, 1400, 536, 100, 9000, 16500])), "syn": draw(st.booleans()),
-         "acks": draw(st.booleans())}
+         "acks": draw(st.booleans()), "fin": draw(st.sampled_from([0, 0, 1, 2, 3]))}
     isn = st.one_of(st.integers(0, 2 ** 32 - 1), st.sampled_from([0, 1, 2 ** 31 - 1, 2 ** 31]), st.integers(1, 20000).map(lambda k: 2 ** 32 - k)) if wrap else st.integers(0, 2 ** 31)
     t["isn_c"], t["isn_s"] = draw(isn), draw(isn)
     if mode == "cuts":
